@@ -300,7 +300,7 @@ Qed.
 Definition pu_user_txt (user pw : text) : text := if nonempty user || nonempty pw then qf CUser user else [].
 Definition pu_pass_txt (pw : text) : text := if nonempty pw then qf CUser pw else [].
 
-Lemma hostport_parse : split_hostport (ht ++ ptxt) = MOk (ht, pres).
+Lemma hostport_parse : split_hostport O (ht ++ ptxt) = MOk (ht, pres).
 Proof.
   unfold split_hostport.
   destruct (ht ++ ptxt) as [|x y] eqn:E.
